@@ -47,8 +47,8 @@ package remote
 // the added region ends up inside one region of the set: the region that already contained it, or the (grown) region
 // that is inserted / prepended
 //@   assert[C06] before "return"#1 : l.b <= old(r.b) && old(r.e) <= l.e
-//@   assert[C06] after "rs.rs = append(rs.rs[:i+1]" : i + 1 < len(rs.rs) && rs.rs[i+1].b <= old(r.b) && old(r.e) <= rs.rs[i+1].e
-//@   assert[C06] after "rs.rs = append([]region{r}, rs.rs...)" : len(rs.rs) >= 1 && rs.rs[0].b <= old(r.b) && old(r.e) <= rs.rs[0].e
+//@   assert[C06] after "rs.rs = append("#4 : i + 1 < len(rs.rs) && rs.rs[i+1].b <= old(r.b) && old(r.e) <= rs.rs[i+1].e
+//@   assert[C06] after "rs.rs = append("#5 : len(rs.rs) >= 1 && rs.rs[0].b <= old(r.b) && old(r.e) <= rs.rs[0].e
 //@ func superRegion
 //@   props C06,C04
 //@   requires len(regs) > 0
